@@ -20,6 +20,8 @@ INPUTS = {
     # strings whose type depends on the string-type registry that the call passes explicitly
     "dates": [{"created": "2018-01-02", "n": "12", "flag": "true", "at": "11:22:33", "when": "2018-01-02T11:22:33", "s": "abc"},
               {"created": "2019-03-04", "n": "13", "flag": "false", "at": "01:02:03", "when": "2019-03-04T01:02:03", "s": "xyz"}],
+    # non-ASCII keys and model names: their Python names depend on the convert_unicode option of the rendering call
+    "unicode": [{"имя": "x", "Größe": 1, "вложение": {"Straße": 1, "ключ": 2.5}, "straße": {"ß": 1, "имя": "y"}}],
     "reserved": [{"config": {"a": 1}, "json": {"b": "x"}, "copy": [{"c": 1.5}], "field": {"d": True}, "validate": 1, "schema": "s"}],
 }
 _REF = {}
@@ -64,11 +66,64 @@ def render_kwargs(fw, override):
         kw["post_init_converters"] = True
     elif override == "max_literals_0":
         kw["max_literals"] = 0
+    elif override == "no_unicode":
+        kw["convert_unicode"] = False
     return kw
 
 
 class Boom(Exception):
     pass
+
+
+class ReusedIds:
+    """Stub for the builtin id() inside json_to_models: the language only promises that id() is unique among objects alive at the same
+    time, so an address may be handed out again once its object is gone.  CPython does that when the allocator happens to; this stub does it
+    always (the smallest number no live object holds), which makes "state keyed by id() outlives the object" a deterministic observation
+    instead of a matter of memory layout.  Objects that cannot be weakly referenced keep their real id."""
+
+    def __init__(self):
+        import builtins
+        self.real = builtins.id
+        self.live = {}
+        self.free = []
+        self.next = 1
+
+    def __call__(self, obj):
+        import heapq
+        import weakref
+        rid = self.real(obj)
+        e = self.live.get(rid)
+        if e is not None and e[1]() is obj:
+            return e[0]
+        small = heapq.heappop(self.free) if self.free else self.next
+        if small == self.next:
+            self.next += 1
+
+        def gone(w, rid=rid, small=small):
+            cur = self.live.get(rid)
+            if cur is not None and cur[1] is w:
+                del self.live[rid]
+            heapq.heappush(self.free, small)
+        try:
+            w = weakref.ref(obj, gone)
+        except TypeError:
+            heapq.heappush(self.free, small)
+            return rid
+        self.live[rid] = (small, w)
+        return small
+
+
+_IDS = []
+
+
+def install_reused_ids():
+    import json_to_models.models.attr, json_to_models.models.dataclasses, json_to_models.models.pydantic, json_to_models.models.sqlmodel  # noqa
+    import json_to_models.registry, json_to_models.generator  # noqa
+    if not _IDS:
+        _IDS.append(ReusedIds())
+    for name, mod in list(sys.modules.items()):
+        if name == "json_to_models" or name.startswith("json_to_models."):
+            mod.id = _IDS[0]
 
 
 def scen_history(ch, params, out):
@@ -78,6 +133,8 @@ def scen_history(ch, params, out):
     inputs = params.get("inputs", ["simple", "shared"])
     fws = params.get("frameworks", ["pydantic", "dataclasses", "attrs"])
     ncalls = params.get("calls", 3)
+    if params.get("reused_ids"):
+        install_reused_ids()
     registries = params.get("registries")      # names of explicitly passed string-type registries, chosen per call
     first = [(i, f, l, a) for i in inputs for f in fws for l in ("flat", "nested") for a in ("fresh", "fail", "override")]
     if registries:
@@ -123,6 +180,9 @@ def scen_history(ch, params, out):
             return
         if layout == "nested" and not pipeline.is_tree(reg) and inp != "shared":
             continue
+        if action == "fail" and params.get("fail_with_options"):
+            override = ch.choose(f"failing_call_option{c}", [None] + list(params.get("override_kinds", [])))
+            log[-1].append(f"option={override}")
         kw = render_kwargs(fw, override)
         if action == "fail":
             base = pipeline.FRAMEWORKS[fw]
@@ -170,6 +230,9 @@ def parts(tier):
                 CH("history3_options", "vflib.props.c14:scen_history", {"calls": 3, "inputs": ["nullonly"], "frameworks": ["pydantic", "attrs", "base"],
                                                                         "override_kinds": ["converters", "max_literals_0"], "final_with_options": True},
                    shards=16, timeout=170, path_timeout=60),
+                CH("history3_unicode_reused_ids", "vflib.props.c14:scen_history", {"calls": 3, "inputs": ["unicode"], "frameworks": ["pydantic", "dataclasses"],
+                                                                                   "override_kinds": ["no_unicode"], "final_with_options": True, "fail_with_options": True,
+                                                                                   "reused_ids": True}, shards=12, timeout=170, path_timeout=60),
                 CH("history3_explicit_registries", "vflib.props.c14:scen_history", {"calls": 3, "inputs": ["dates"], "frameworks": ["pydantic"],
                                                                                     "registries": ["default", "none", "datetime"]},
                    shards=16, timeout=170, path_timeout=60)]
@@ -188,7 +251,9 @@ META = {
     "symbolic_on_path": ["per call: input, framework, layout, action (fresh / re-render previous registry / failing render / types_style override)"],
     "bounds": {"quick": "3 calls; inputs {simple, shared}; frameworks {pydantic, dataclasses}; the last call is a fresh render", "thorough": "3 calls over 4 inputs x 3 frameworks; 4 calls over 2 x 2"},
     "outside_claim": ["the CLI's process-global string-type registry (mutated by --datetime / --disable-str-serializable-types; library calls use explicit registries)", "histories longer than 4 calls"],
-    "assumptions": ["reference = the same call in a fresh /venv/bin/python process", "a failure inside code generation is an exception raised by the second class's generate()"],
+    "assumptions": ["reference = the same call in a fresh /venv/bin/python process", "a failure inside code generation is an exception raised by the second class's generate()",
+                    "part history3_unicode_reused_ids: the builtin id() as seen from json_to_models modules is replaced by a stub that honours the language contract (unique among live objects, stable during an object's life) and reuses the number of a dead object at once; non-weakref-able objects keep their real id"],
 }
 if isinstance(META.get("bounds"), dict) and "quick" in META["bounds"]:
+    META["bounds"]["quick"] += '; 3 calls over non-ASCII / reserved keys where any call, also a failing one, may switch unicode conversion off, under adversarial id() reuse'
     META["bounds"]["quick"] += '; 3 calls with an explicitly passed string-type registry per call (default / none / datetime) on a date-bearing input'
